@@ -47,7 +47,20 @@ def check(ctx, case):
 	ti = lambda t: None if t is None else tix.get(id(t), 999999)   # 999999 = an object that does not belong to this taxonomy
 	lines, pf = [], []
 	try:
-		return _check_with(ctx, case, taxa, genomes, tix, gix, ti, dists, ftok, gtax, ds_s, db)
+		lines, pf = _check_with(ctx, case, taxa, genomes, tix, gix, ti, dists, ftok, gtax, ds_s, db)
+		if db is not None and case.get('thr2') is not None:
+			# the same database object queried again after its thresholds / report flags were edited in the session
+			nt = case.get('_nt')
+			for t, th, rp in zip(taxa, case['thr2'], case['report2']):
+				t.distance_threshold = th
+				t.report = bool(rp)
+			dists2 = np.array(case['dists2'], dtype=np.float32)
+			thr2_s, ds2_s = T.scale_all(case['thr2'], [float(x) for x in dists2])
+			ftok2 = T.forest_token(parent, thr2_s, case['report2'])
+			l2, pf2 = _check_with(ctx, case, taxa, genomes, tix, gix, ti, dists2, ftok2, gtax, ds2_s, db)
+			lines += l2; pf += pf2
+			case['_nt'] = nt or case.get('_nt')
+		return lines, pf
 	finally:
 		if db is not None:
 			db.signatures.close(); db.session.close()
@@ -118,14 +131,19 @@ def run(ctx):
 					sub({'parent': parent, 'thr': list(thr), 'report': report, 'gtax': gtax, 'dists': dists, 'via': rng.choice(['item', 'classify'])}, f'exh-n{n}')
 	ctx.exhaustive = [f'all forests with <= {nmax} nodes x all threshold patterns over (none,.2,.5) x 5 distances']
 	# persisted databases: several different ones in this one process (same primary keys, different flags / thresholds)
-	for j in range(ctx.q(60, 600)):
+	for j in range(ctx.q(120, 800)):
 		if not ctx.time_left(0.5):
 			break
 		n = rng.randint(1, 6)
 		parent = T.rand_forest(rng, n, deep=rng.random() < 0.5)
 		ng = rng.randint(1, 5)
-		sub({'parent': parent, 'thr': T.rand_thr(rng, n, p_none=0.3), 'report': [rng.random() < 0.6 for _ in range(n)], 'gtax': [rng.randrange(n) for _ in range(ng)],
-		     'dists': [float(x) for x in T.rand_dists(rng, ng)], 'via': 'db'}, 'persisted-db')
+		case = {'parent': parent, 'thr': T.rand_thr(rng, n, p_none=0.3), 'report': [rng.random() < 0.6 for _ in range(n)], 'gtax': [rng.randrange(n) for _ in range(ng)],
+		        'dists': [float(x) for x in T.rand_dists(rng, ng)], 'via': 'db'}
+		if rng.random() < 0.6:
+			case.update(thr2=T.rand_thr(rng, n, p_none=0.2), report2=[rng.random() < 0.6 for _ in range(n)], dists2=[float(x) for x in T.rand_dists(rng, ng)])
+			if rng.random() < 0.5:
+				case['thr2'] = [None if t is None else 1.0 for t in case['thr2']]     # every threshold raised to the maximum
+		sub(case, 'persisted-db')
 	for j in range(ctx.q(2500, 40000)):
 		if not ctx.time_left(0.9):
 			break
